@@ -228,6 +228,12 @@ def main(argv=None):
     # 4. verdict, replay files, evidence
     new = {s: x for s, x in found.items() if s not in exclude}
     replay_dir = os.path.join(ROOT, "replays", pid)
+    if os.path.isdir(replay_dir):   # replay files of earlier runs belong to other trees/seeds
+        for old_file in glob.glob(os.path.join(replay_dir, "*-seed%d.json" % seed)):
+            try:
+                os.remove(old_file)
+            except OSError:
+                pass
     lines = []
     for sig, (case, msg, detail) in sorted(new.items()):
         os.makedirs(replay_dir, exist_ok=True)
